@@ -212,6 +212,25 @@ func genC04(r *Rng, tier string, emit func(Case)) {
 			}
 		}
 	}
+	// two leading zero bytes in a derived private key (1 in 65536), then hardened and normal grandchildren
+	if tier == "thorough" {
+		seed := r.Bytes(32)
+		if m, err := hdkeychain.NewMaster(seed, nets[0]); err == nil {
+			for i := uint32(0); i < 400000; i++ {
+				idx := i | 1<<31
+				c, err := m.Child(idx)
+				if err != nil {
+					continue
+				}
+				key, _, _, _, _, _, _, _ := hdkeychain.VerifFields(c)
+				if key[0] == 0 && key[1] == 0 {
+					e("hd", "leadingzero2", "0", hx(seed), u64s(uint64(idx))+",2147483648")
+					e("hd", "leadingzero2", "0", hx(seed), u64s(uint64(idx))+",3,N,1")
+					break
+				}
+			}
+		}
+	}
 	// deep chains up to the depth limit
 	deep := []string{}
 	for i := 0; i < 256; i++ {
